@@ -101,6 +101,25 @@ Theorem C05_typed_programs_never_ill_typed : forall (fadd fmul fdiv : Z -> Z -> 
   Forall (fun r => fst r <> XRet (XO OBad)) (xrun fadd fmul fdiv of_int init_state prog).
 Proof. intros fadd fmul fdiv of_int prog. exact (HeapExtSpecs.no_obad_run fadd fmul fdiv of_int prog init_state Reachable.init_wf Acyclic.init_acyclic). Qed.
 
+(* IndexOf / Contains / Count / Empty: observers leave the state alone. IndexOf answers the position of the FIRST element that is
+   Go-equal to the value (every earlier element is not), and -1 exactly when Contains is false, i.e. when no element is *)
+Theorem C05_observers_step : forall s r v id l x, reg_list s r = Some (id, l) -> eval_operand (st_env s) v = Some x ->
+  step_core s (LIndexOf r v) = (s, Ret (OZ (l_index_of l x 0))) /\ step_core s (LContains r v) = (s, Ret (OB (l_contains l x))) /\
+  step_core s (LCount r) = (s, Ret (OZ (Z.of_nat (length l)))) /\ step_core s (LEmpty r) = (s, Ret (OB (Nat.eqb (length l) 0))).
+Proof. exact index_contains_step. Qed.
+Theorem C05_indexof_first : forall l v i, (exists x, In x l /\ hval_go_eq x v = true) ->
+  exists n x, l_index_of l v i = i + Z.of_nat n /\ nth_error l n = Some x /\ hval_go_eq x v = true /\
+              forall m y, (m < n)%nat -> nth_error l m = Some y -> hval_go_eq y v = false.
+Proof. exact l_index_of_first. Qed.
+Theorem C05_indexof_absent_iff : forall l v i, 0 <= i -> (l_index_of l v i = -1 <-> l_contains l v = false).
+Proof. exact l_index_of_minus1_iff. Qed.
+Theorem C05_contains : forall l v, l_contains l v = true <-> exists x, In x l /\ hval_go_eq x v = true.
+Proof. exact l_contains_iff. Qed.
+Example C05_indexof_nonvacuous :
+  l_index_of [HInt 7; HStr (B"a"); HInt 7] (HInt 7) 0 = 0 /\ l_index_of [HInt 7; HStr (B"a"); HInt 7] (HStr (B"a")) 0 = 1 /\
+  l_index_of [HInt 7] (HFloat 7) 0 = -1 /\ l_contains [HInt 7] (HInt 7) = true.
+Proof. vm_compute. repeat split; reflexivity. Qed.
+
 Print Assumptions C05_program_refines.
 Print Assumptions C05_growth_policy_unobservable.
 Print Assumptions C05_insert_domain.
@@ -120,3 +139,7 @@ Print Assumptions C05_new_from_appends.
 Print Assumptions C05_new_from_content.
 Print Assumptions C05_new_from_leaf_by_reference.
 Print Assumptions C05_typed_programs_never_ill_typed.
+Print Assumptions C05_observers_step.
+Print Assumptions C05_indexof_first.
+Print Assumptions C05_indexof_absent_iff.
+Print Assumptions C05_contains.
